@@ -948,7 +948,9 @@ def search(ctx):
             found.append(Failure(c, f"{c['filter']}/{arg_kind(c)}: corpus case fails the property oracle", on_impl=oracle(c)))
             seen.add((c["filter"], arg_kind(c)))
     for i in range(budget):
-        c = gen_case(ctx.rng, small=True, admissible_only=(i % 5 != 0))
+        # every filter in turn (a broken obligation does not say which filter changed), small and full-size samples alternating
+        c = gen_case(ctx.rng, small=((i // len(ALL_FILTERS)) % 2 == 0), filt=ALL_FILTERS[i % len(ALL_FILTERS)],
+                     admissible_only=(i % 5 != 0))
         if (c["filter"], arg_kind(c)) in seen:
             continue
         n += 1
